@@ -22,6 +22,7 @@ import (
 	"fmt"
 	"go/ast"
 	"go/token"
+	"sort"
 	"strings"
 )
 
@@ -90,7 +91,26 @@ func c06errKind(fn *ast.FuncDecl, pm c06parents, e ast.Expr, at token.Pos, depth
 		}
 		as, ok := x.Obj.Decl.(*ast.AssignStmt)
 		if !ok || as.Tok != token.DEFINE {
-			return "unknown" // named result, parameter, var declaration: not a shape we vouch for
+			// named result, parameter, var declaration: vouched for only inside the body of an `if <it> != nil {`
+			// (no Init that could shadow it) and when it is not assigned between that test and the return
+			var guard *ast.IfStmt
+			ast.Inspect(fn.Body, func(n ast.Node) bool {
+				if ifs, ok := n.(*ast.IfStmt); ok && ifs.Init == nil && at > ifs.Body.Pos() && at < ifs.Body.End() {
+					if be, ok := ifs.Cond.(*ast.BinaryExpr); ok && be.Op == token.NEQ && exprString(be.Y) == "nil" {
+						if ci, ok := be.X.(*ast.Ident); ok && ci.Obj == x.Obj {
+							guard = ifs // innermost wins: Inspect reaches it last
+						}
+					}
+				}
+				return true
+			})
+			if guard == nil {
+				return "unknown"
+			}
+			if c06assignedBetween(fn, x, guard.Body.Pos(), at) {
+				return "overwritten"
+			}
+			return "error"
 		}
 		if c06assignedBetween(fn, x, as.End(), at) {
 			return "overwritten"
@@ -352,6 +372,112 @@ func c06writeOf(c *ast.CallExpr, depth int) (recv string, isWrite, tail bool) {
 	return recv, isWrite, tail
 }
 
+// c06canonRank: a rank for every statement of body in a NORMALISED source order, so that lists "in source order" do
+// not depend on which of two exclusive branches the author wrote first.  The only normalisation: the branches of a
+// negated test are visited positive-first, i.e.
+//
+//	if !c { B } else { A }        and        if !c { B; return }; A…
+//
+// are both ranked like `if c { A… } else { B }`.  Everything else keeps its textual order.  The returned function
+// gives the rank of the innermost ranked statement that contains pos.
+func c06canonRank(body *ast.BlockStmt) func(pos token.Pos) int {
+	type ranked struct {
+		from, to token.Pos
+		rank     int
+	}
+	var rs []ranked
+	n := 0
+	mark := func(s ast.Node) {
+		if s != nil {
+			rs = append(rs, ranked{s.Pos(), s.End(), n})
+			n++
+		}
+	}
+	negated := func(e ast.Expr) bool {
+		for {
+			p, ok := e.(*ast.ParenExpr)
+			if !ok {
+				break
+			}
+			e = p.X
+		}
+		u, ok := e.(*ast.UnaryExpr)
+		return ok && u.Op == token.NOT
+	}
+	terminates := func(b *ast.BlockStmt) bool {
+		if b == nil || len(b.List) == 0 {
+			return false
+		}
+		_, ok := b.List[len(b.List)-1].(*ast.ReturnStmt)
+		return ok
+	}
+	var walkList func(list []ast.Stmt)
+	var walk func(s ast.Stmt)
+	walk = func(s ast.Stmt) {
+		if s == nil {
+			return
+		}
+		mark(s)
+		switch x := s.(type) {
+		case *ast.BlockStmt:
+			walkList(x.List)
+		case *ast.IfStmt:
+			walk(x.Init)
+			if negated(x.Cond) && x.Else != nil {
+				walk(x.Else)
+				walk(x.Body)
+			} else {
+				walk(x.Body)
+				walk(x.Else)
+			}
+		case *ast.ForStmt:
+			walk(x.Init)
+			walk(x.Body)
+		case *ast.RangeStmt:
+			walk(x.Body)
+		case *ast.SwitchStmt:
+			walk(x.Init)
+			walk(x.Body)
+		case *ast.TypeSwitchStmt:
+			walk(x.Init)
+			walk(x.Body)
+		case *ast.SelectStmt:
+			walk(x.Body)
+		case *ast.CaseClause:
+			walkList(x.Body)
+		case *ast.CommClause:
+			walkList(x.Body)
+		case *ast.LabeledStmt:
+			walk(x.Stmt)
+		}
+	}
+	walkList = func(list []ast.Stmt) {
+		for i, s := range list {
+			if ifs, ok := s.(*ast.IfStmt); ok && ifs.Else == nil && negated(ifs.Cond) && terminates(ifs.Body) && i+1 < len(list) {
+				mark(ifs)
+				walk(ifs.Init)
+				walkList(list[i+1:]) // the positive branch: what runs when the test does not fire
+				walk(ifs.Body)
+				return
+			}
+			walk(s)
+		}
+	}
+	walkList(body.List)
+	return func(pos token.Pos) int {
+		best, span := -1, token.Pos(0)
+		for _, r := range rs {
+			if r.from <= pos && pos < r.to && (best < 0 || r.to-r.from <= span) {
+				if best >= 0 && r.to-r.from == span && r.rank < best {
+					continue
+				}
+				best, span = r.rank, r.to-r.from
+			}
+		}
+		return best
+	}
+}
+
 func init() {
 	extractors = append(extractors, func(o *out) {
 		b := o.w("C06Refusal.lean")
@@ -375,6 +501,9 @@ func init() {
 			}
 			pm := c06parentMap(fd)
 			n := 0
+			rank := c06canonRank(fd.Body)
+			var fnWrites [][3]string
+			var fnRanks []int
 			ast.Inspect(fd.Body, func(nd ast.Node) bool {
 				c, ok := nd.(*ast.CallExpr)
 				if !ok {
@@ -411,15 +540,25 @@ func init() {
 				if !tail {
 					next = "return-unknown"
 				}
-				writes = append(writes, [3]string{fn, c06dominatingStatus(pm, carrier), next})
+				fnWrites = append(fnWrites, [3]string{fn, c06dominatingStatus(pm, carrier), next})
+				fnRanks = append(fnRanks, rank(c.Pos()))
 				n++
 				return false // the arguments of a write are not searched for further writes
 			})
+			// normalised source order (c06canonRank): which of two exclusive branches is written first does not matter
+			order := make([]int, len(fnWrites))
+			for i := range order {
+				order[i] = i
+			}
+			sort.SliceStable(order, func(a, b int) bool { return fnRanks[order[a]] < fnRanks[order[b]] })
+			for _, i := range order {
+				writes = append(writes, fnWrites[i])
+			}
 			if n == 0 {
 				fail("%s: no response.Write found", fn)
 			}
 		}
-		fmt.Fprintf(b, "/-- every `response.Write(conn)` of server.go handshake / upgrade, source order: (function, status being written, what the code does next) -/\ndef c06ResponseWrites : List (String × String × String) := %s\n", triple(writes))
+		fmt.Fprintf(b, "/-- every `response.Write(conn)` of server.go handshake / upgrade, source order (branches of a negated test positive-first): (function, status being written, what the code does next) -/\ndef c06ResponseWrites : List (String × String × String) := %s\n", triple(writes))
 
 		// ---- the step calls of NewServerConnection / NewClientConnection
 		var guards [][3]string
@@ -447,6 +586,38 @@ func init() {
 					if ifs, ok := pm[as].(*ast.IfStmt); ok && ifs.Init == as {
 						if be, ok := ifs.Cond.(*ast.BinaryExpr); ok && be.Op == token.NEQ && exprString(be.X) == "err" && exprString(be.Y) == "nil" {
 							kind = c06after(fd, pm, ifs.Body.List, -1)
+						}
+					} else if blk, ok := pm[as].(*ast.BlockStmt); ok && len(as.Rhs) == 1 && len(as.Lhs) > 0 {
+						// `x, err := step(…)` (or `err = step(…)`) as a statement of its own: the step's error - the last
+						// value - must be tested by the very next statement that does anything (log calls skipped),
+						// `if err != nil {`, on the same variable
+						if ev, ok := as.Lhs[len(as.Lhs)-1].(*ast.Ident); ok && ev.Name != "_" {
+							idx := -1
+							for i, st := range blk.List {
+								if st == ast.Stmt(as) {
+									idx = i
+								}
+							}
+							for _, st := range blk.List[idx+1:] {
+								if idx < 0 {
+									break
+								}
+								if es, ok := st.(*ast.ExprStmt); ok && c06isLogCall(es) {
+									continue
+								}
+								ifs, ok := st.(*ast.IfStmt)
+								if !ok || ifs.Init != nil {
+									break
+								}
+								be, ok := ifs.Cond.(*ast.BinaryExpr)
+								if !ok || be.Op != token.NEQ || exprString(be.Y) != "nil" {
+									break
+								}
+								if ci, ok := be.X.(*ast.Ident); ok && ci.Name == ev.Name && ci.Obj == ev.Obj {
+									kind = c06after(fd, pm, ifs.Body.List, -1)
+								}
+								break
+							}
 						}
 					}
 				}
